@@ -284,4 +284,5 @@ _ins("C06", "text", "Tied to the code by",
      "name exactly the content read from the old one and nothing else (compact_preserves_map, from C07's rebuilt_lookup / extract_sound / "
      "extract_complete); one unresolvable entry and nothing is replaced (compact_refuses_unresolvable). ")
 _rep("C06", "note", "compact is covered by the correspondence and the oracle, not by a theorem of its own;", "compact's decision and result are stated as theorems about Model.C06Compact, whose refusal gate is the `resolvable` predicate the correspondence compares and whose result is what the map oracle compares after reopening;")
+_rep("C19", "text", "(find_data_within_array). ", "(find_data_within_array), SFileGetFileInfo writes a value of n bytes only into a buffer of at least n bytes (info_within_buffer). ")
 
